@@ -331,6 +331,26 @@ class Coalesce(Expr):
         return '(%s ?? %s)' % (self.opt.src(), self.dflt.src())
 
 
+class IsSome(Expr):
+    """x != none  (x == none with neg=True): the test that narrows x inside the guarded block"""
+    def __init__(self, opt, neg=False):
+        self.opt, self.neg = opt, neg
+        self.ty = BOOL
+
+    def src(self):
+        return '%s %s none' % (self.opt.src(), '==' if self.neg else '!=')
+
+
+class Unwrap(Expr):
+    """a use of an optional variable where flow narrowing has made it its payload type (inside if x != none { })"""
+    def __init__(self, opt):
+        self.opt = opt
+        self.ty = opt.ty.elem
+
+    def src(self):
+        return self.opt.src()
+
+
 class Catch(Expr):
     """call catch e { handler } fallback   |   call catch fallback   (handler may end in a return)"""
 
@@ -1029,6 +1049,11 @@ class RefEval:
             o = self.eval(e.opt, env, ctx, lv)
             d = self.eval(e.dflt, env, ctx, lv)
             return ite_val(o.has, o.val, d)
+        if isinstance(e, IsSome):
+            o = self.eval(e.opt, env, ctx, lv)
+            return z3.Not(o.has) if e.neg else o.has
+        if isinstance(e, Unwrap):
+            return self.eval(e.opt, env, ctx, lv).val
         if isinstance(e, EnumVal):
             return z3.BitVecVal(e.ty.variants.index(e.variant), 32)
         if isinstance(e, AddrOf):
